@@ -1,4 +1,5 @@
 From Coq Require Import ZArith Extraction ExtrOcamlBasic.
 From CyVerif Require Import Lib.CInt Lib.PyLong Model.M_CmpInt.
 Extraction "../ocaml/gen/m_cmpint.ml" ex_keep lp64_312 lp64_311 lp64_noint ilp32_15
-  zop cmp_intint cmp_exact cmp_values branch_values digits_values tag of_Z.
+  zop cmp_intint cmp_exact cmp_values branch_values digits_values tag of_Z
+  wfb value branch_of loop_iters.
